@@ -49,7 +49,7 @@ def is_tb(m: Instantiable) -> bool:
     """Boolean indication of whether Instantiable `m` meets the test-bench interface."""
     if not isinstance(m, (Module, ExternalModuleCall)):
         # Also filter out `Primitive`s, which don't work as testbenches
-        raise TypeError(f"Invalid un-instantiable argument {i} to `is_tb`")
+        raise TypeError(f"Invalid un-instantiable argument {m} to `is_tb`")
 
     if len(m.ports) != 1:
         return False
